@@ -521,7 +521,7 @@ func runCloseDuringSend(c closeSendCase) (f *vh.Failure) {
 
 func TestCloseDuringSend(t *testing.T) {
 	gen := func(rt *rapid.T) closeSendCase {
-		c := closeSendCase{Len: rapid.SampledFrom([]int{10, 400, 600, 1500}).Draw(rt, "len"), GapUs: rapid.SampledFrom([]int{200, 1000, 5000}).Draw(rt, "gap"), Procs: rapid.SampledFrom([]int{1, 2, 4}).Draw(rt, "procs")}
+		c := closeSendCase{Len: rapid.SampledFrom([]int{10, 400, 600, 1500, 6000, 30000, 60000}).Draw(rt, "len"), GapUs: rapid.SampledFrom([]int{200, 1000, 5000}).Draw(rt, "gap"), Procs: rapid.SampledFrom([]int{1, 2, 4}).Draw(rt, "procs")}
 		vh.Sample("close-during-send", c)
 		return c
 	}
